@@ -1,6 +1,6 @@
 SPECIFICATION Spec
 CONSTANTS
-  Sizes = {0, 1, 511, 513, 32769, 1200000}
+  Sizes = {0, 1, 513, 16384, 32769, 1200000}
   MaxChunks = 2
   Deltas = {0, 1, 2}
   Nets = {"perfect", "drop3", "dup", "reorder", "mix", "drop2"}
